@@ -406,6 +406,15 @@ template <class R, long long N, long long D> static void dur_line(const char* na
     printf("\n");
 }
 static void conv_lines() {
+    // the Zero-Zero operators (zero.hh:57-65)
+    {
+        constexpr au::Zero a{}, b{};
+        constexpr bool ceq = (a == b), cge = (a >= b), cle = (a <= b), cne = (a != b), cgt = (a > b), clt = (a < b);
+        printf("A zz cmp=%d%d%d%d%d%d ccmp=%d%d%d%d%d%d addzero=%d subzero=%d\n", int(au::ZERO == au::ZERO), int(au::ZERO != au::ZERO),
+               int(au::ZERO < au::ZERO), int(au::ZERO <= au::ZERO), int(au::ZERO > au::ZERO), int(au::ZERO >= au::ZERO),
+               int(ceq), int(cne), int(clt), int(cle), int(cgt), int(cge),
+               int(std::is_same<decltype(au::ZERO + au::ZERO), au::Zero>::value), int(std::is_same<decltype(au::ZERO - au::ZERO), au::Zero>::value));
+    }
 @CONV_BODY@
 }
 '''
